@@ -1,10 +1,13 @@
 package main
 
 import (
+	"crypto/sha1"
+	"encoding/hex"
 	"encoding/json"
 	"fmt"
 	"reflect"
 	"sort"
+	"strings"
 
 	"github.com/bilibili/gengine/builder"
 	"github.com/bilibili/gengine/context"
@@ -28,11 +31,38 @@ type cEntryObs struct {
 	Before  []string `json:"before"`
 	After   []string `json:"after"`
 	IndexOK bool     `json:"index_ok"`
+	Trees   map[string]string `json:"trees,omitempty"` // rule name -> digest of its compiled tree (node kinds, operators, operands, source positions)
 }
 
 type cObs struct {
 	ID      int         `json:"id"`
 	Entries []cEntryObs `json:"entries"`
+}
+
+// treeDigests: for every installed rule a digest of the tree the listener built for it, positions included
+func treeDigests(kc reflect.Value) (out map[string]string) {
+	out = map[string]string{}
+	defer func() { _ = recover() }()
+	if kc.IsNil() {
+		return
+	}
+	ents := kc.Elem().FieldByName("RuleEntities")
+	for _, k := range ents.MapKeys() {
+		var sb strings.Builder
+		dumpNode(ents.MapIndex(k).Elem().FieldByName("RuleContent"), &sb)
+		sum := sha1.Sum([]byte(sb.String()))
+		out[k.String()] = hex.EncodeToString(sum[:6])
+	}
+	return
+}
+
+func poolTrees(gp *engine.GenginePool) map[string]string {
+	v := reflect.ValueOf(gp).Elem()
+	rb := expose(v.FieldByName("ruleBuilder"))
+	if rb.IsNil() {
+		return map[string]string{}
+	}
+	return treeDigests(rb.Elem().FieldByName("Kc"))
 }
 
 func builderRules(rb *builder.RuleBuilder) ([]string, bool) {
@@ -121,6 +151,7 @@ func runCompileCase(c *cCase) cObs {
 		})
 		o.Err, o.ErrMsg, o.Panic = e != nil, short(e), p
 		o.After, o.IndexOK = builderRules(rb)
+		o.Trees = treeDigests(reflect.ValueOf(rb.Kc))
 		add(o)
 	}
 	// 3: pool construction
@@ -135,6 +166,7 @@ func runCompileCase(c *cCase) cObs {
 		o.Err, o.ErrMsg, o.Panic = e != nil, short(e), p
 		if gp != nil && e == nil {
 			o.After = poolRules(gp)
+			o.Trees = poolTrees(gp)
 		}
 		add(o)
 	}
@@ -168,6 +200,7 @@ func runCompileCase(c *cCase) cObs {
 		})
 		o.Err, o.ErrMsg, o.Panic = e != nil, short(e), p
 		o.After = poolRules(gp)
+		o.Trees = poolTrees(gp)
 		add(o)
 	}
 	return obs
